@@ -378,6 +378,9 @@ Definition by_ctor {A} (cargs : list string) (d : list (string * A)) : option (l
   else None.
 
 Definition is_prior (n : node) : bool := match n with NPrior _ _ _ _ _ _ => true | _ => false end.
+(* both operands are one object (the same prior): every name lookup finds the name bound last *)
+Definition same_prior (l r : node) : bool :=
+  match l, r with NPrior p _ _ _ _ _, NPrior q _ _ _ _ _ => Z.eqb p q | _, _ => false end.
 
 Fixpoint reload (n : node) : option node :=
   match n with
@@ -394,9 +397,10 @@ Fixpoint reload (n : node) : option node :=
       | None => None
       end
   | NBinop mid cname ln rn l r =>
-      (* CompoundPrior.from_dict calls cls(left, right): the names found in its frames are left/right *)
+      (* CompoundPrior.from_dict calls cls(left, right): the names found in its frames are left/right
+         (both `right` when the two operands are one object: the left name is then "right") *)
       match reload l, reload r with
-      | Some l', Some r' => Some (NBinop mid cname "left_" "right_" l' r')
+      | Some l', Some r' => Some (NBinop mid cname (if same_prior l r then "right" else "left_") "right_" l' r')
       | _, _ => None
       end
   | NUnop mid cname pn a =>
